@@ -230,6 +230,7 @@ class Env:
         self.interned_digests = {}
         self.crashed = False
         self.cur_op = None
+        self.reflink_supported = None   # None: nondeterministic (both kinds of filesystem are explored)
 
     def act(self, kind, path=None, path2=None, mutating=False, data=None, **kw):
         """Called at every filesystem operation.  Returns None or the name of an injected error kind."""
@@ -578,18 +579,34 @@ def op_copy(I, src, dst):
 
 
 def op_reflink(I, src, dst):
+    """reflink_copy::reflink on Linux: open(src); create_new(dst); ioctl(FICLONE); on failure the
+    destination is removed again."""
     env = I.env
-    fail_if_injected(env.act("reflink", src, dst, mutating=True))
+    fail_if_injected(env.act("open", src, mutating=False, flags=dict(read=True), via="reflink"))
     sino = env.vfs.lookup(src)
-    if sino.kind != "file":
-        raise FsErr("InvalidInput")
-    dp, dn, dino = env.vfs.walk(dst, follow_last=False)
+    if sino.kind == "dir":
+        pass
+    fail_if_injected(env.act("open", dst, mutating=True, flags=dict(write=True, create_new=True), via="reflink"))
+    dp, dn, dino = env.vfs.walk(dst, follow_last=True)
     if dino is not None:
         raise FsErr("AlreadyExists")
     if dp is None:
         raise FsErr("NotFound")
-    ni = Inode("file", sino.sb)
+    ni = Inode("file")
     dp.children[comp_key(dn)] = (dn, ni)
+    inj = env.act("ficlone", src, dst, mutating=True)
+    supported = env.reflink_supported
+    if supported is None:
+        supported = env.w.choose(2, "reflink-supported") == 0
+        env.reflink_supported = supported
+    if inj or not supported or sino.kind != "file":
+        # AutoRemovedFile: best-effort unlink of the half-made destination
+        env.act("unlink", dst, mutating=True, via="reflink-cleanup")
+        dp.children.pop(comp_key(dn), None)
+        if inj:
+            raise FsErr(inj, injected=True)
+        raise FsErr("Unsupported" if sino.kind == "file" else "InvalidInput")
+    ni.sb = sino.sb
     return UNIT
 
 
@@ -688,9 +705,25 @@ def _fs_symlink(I, a, d):
     return wrap(I, lambda: op_symlink(I, _p(a[0]), _p(a[1])))
 
 
+def reflink_outer(I, src, dst):
+    """reflink_copy::reflink: sys::reflink + error remapping when `from` is not a regular file."""
+    try:
+        return op_reflink(I, src, dst)
+    except FsErr as e:
+        try:
+            I.env.act("lstat", src, mutating=False, via="reflink-diagnose")
+            ino = I.env.vfs.lookup(src, follow=False)
+            regular = ino.kind == "file"
+        except FsErr:
+            regular = False
+        if not regular:
+            raise FsErr("InvalidInput", injected=e.injected)
+        raise
+
+
 @T.path("reflink_copy::reflink")
 def _reflink(I, a, d):
-    return wrap(I, lambda: op_reflink(I, _p(a[0]), _p(a[1])))
+    return wrap(I, lambda: reflink_outer(I, _p(a[0]), _p(a[1])))
 
 
 @T.path("reflink_copy::reflink_or_copy")
